@@ -158,7 +158,103 @@ def run_C09(ctx):
     replay_exec(ctx, "ctx", recs, ["interp", "jit", "cl"])
 
 
+def replay_verdicts(ctx, tag, recs):
+    if not recs:
+        raise ToolError(f"no verdict records for {tag}")
+    path = os.path.join(ctx.workdir, f"{tag}.verdicts.ndjson")
+    with open(path, "w") as f:
+        for r in recs:
+            f.write(json.dumps(r) + "\n")
+    rep_path = os.path.join(ctx.workdir, f"{tag}.report.json")
+    rv(["verdicts", "--cases", path, "--report", rep_path], timeout=3000)
+    rep = json.load(open(rep_path))
+    ctx.traces += rep["pass"]
+    ctx.evaluations += rep["records"]
+    for s_ in rep["samples"]:
+        ctx.sample(s_)
+    for f in rep["failures"]:
+        ctx.violation(f["reason"], {"kind": "verdict", "record": f["record"], "observed": f["observed"]})
+    return rep
+
+
+def run_C06(ctx):
+    rate = 16 if ctx.quick else 1
+    r = run_tlc(f"{ctx.prop}-verdict", "MC_Verdict", {"Fams": {1, 2, 3, 4, 5}, "Seed": ctx.seed, "Rate": rate},
+                invariants=["Inv"], workers=10, timeout=1500)
+    if r.violation:
+        ctx.violation("MC_Verdict: a verdict is not explained by the named rules", {"kind": "tlc", "output": r.violation[:3000]})
+    ctx.add_tlc(f"MC_Verdict rate=1/{rate}", r)
+    recs = r.replay
+    # rule independence: every rule is the only one violated by some enumerated program
+    lone = {}
+    for x in recs:
+        v = x["violated"]
+        if len(v) == 1:
+            lone[v[0]] = lone.get(v[0], 0) + 1
+    ctx.extra["programs_violating_exactly_one_rule"] = lone
+    missing = [n for n in ("last", "opcode", "regs", "lddw", "jump", "call", "endian", "xadd", "len") if n not in lone]
+    if missing:
+        raise ToolError(f"vacuity: no enumerated program violates only rule(s) {missing}")
+    ctx.extra["accepted"] = sum(1 for x in recs if x["accept"])
+    ctx.extra["refused"] = sum(1 for x in recs if not x["accept"])
+    ctx.nontrivial = len({json.dumps(x["id"]) for x in recs})
+    replay_verdicts(ctx, "verdict", recs)
+    # the small-program universe of MC_Safety, also a verdict corpus
+    r2 = run_tlc(f"{ctx.prop}-safety", "MC_Safety", {"MaxLen": 3 if ctx.quick else 4, "Dev": set(), "Alphabet": "full", "EmitAll": True},
+                 invariants=["Inv"], workers=10, timeout=1500)
+    if r2.violation:
+        ctx.violation("MC_Safety: a well-formed program gets stuck in the control-flow abstraction",
+                      {"kind": "tlc", "output": r2.violation[:3000]})
+    ctx.add_tlc("MC_Safety (verdict corpus)", r2)
+    replay_verdicts(ctx, "universe", r2.replay)
+
+
+def run_C05(ctx):
+    # design level: every program over the alphabet, all inputs (control-flow abstraction)
+    maxlen = 3 if ctx.quick else 4
+    r = run_tlc(f"{ctx.prop}-safety", "MC_Safety", {"MaxLen": maxlen, "Dev": set(), "Alphabet": "full", "EmitAll": True},
+                invariants=["Inv"], workers=10, timeout=1500)
+    if r.violation:
+        ctx.violation("MC_Safety: a well-formed program gets stuck (pc outside / second slot / unsupported opcode / register index)",
+                      {"kind": "tlc", "output": r.violation[:3000]})
+    ctx.add_tlc(f"MC_Safety MaxLen={maxlen} full alphabet", r)
+    ctx.extra["universe_programs"] = len(r.replay)
+    ctx.extra["universe_accepted"] = sum(1 for x in r.replay if x["accept"])
+    ctx.nontrivial = ctx.extra["universe_accepted"]
+    if not ctx.quick:
+        r5 = run_tlc(f"{ctx.prop}-safety5", "MC_Safety", {"MaxLen": 5, "Dev": set(), "Alphabet": "core", "EmitAll": False},
+                     invariants=["Inv"], workers=12, timeout=2400)
+        if r5.violation:
+            ctx.violation("MC_Safety (length 5, core alphabet): a well-formed program gets stuck", {"kind": "tlc", "output": r5.violation[:3000]})
+        ctx.add_tlc("MC_Safety MaxLen=5 core alphabet", r5)
+    # negative control: with the pinned commit's acceptance rule the same model must fail
+    rn = run_tlc(f"{ctx.prop}-safety-neg", "MC_Safety", {"MaxLen": 2, "Dev": {"last_any_jmp", "lddw_r10", "call_any_slot"},
+                 "Alphabet": "full", "EmitAll": False}, invariants=["Inv"], workers=4, timeout=600, expect_violation=True)
+    if not rn.violation:
+        raise ToolError("negative control failed: MC_Safety accepts the weakened acceptance rule")
+    ctx.extra["negative_control"] = "MC_Safety with the pinned commit's acceptance rule (last_any_jmp, lddw_r10, call_any_slot) yields a counterexample, as it must"
+    # the abstraction is sound: Machine refines MachineCF on the concrete case families
+    consts = dict(BASE_CONSTS)
+    consts.update({"Seed": ctx.seed, "Rate": 16 if ctx.quick else 4, "Families": {"calls", "helpers", "jmp", "bounds", "mem", "far"},
+                   "KnownDevs": set()})
+    rr = run_tlc(f"{ctx.prop}-refine", "MC_Exec", consts, invariants=["Inv"], properties=["CFRefinement"], workers=10, timeout=1500)
+    if rr.violation:
+        ctx.violation("Machine does not refine MachineCF: the control-flow abstraction is unsound", {"kind": "tlc", "output": rr.violation[:3000]})
+    ctx.add_tlc("MC_Exec with PROPERTY CFRefinement", rr)
+    # binding: every program of the universe through the real verifier and, if accepted, the real interpreter
+    replay_verdicts(ctx, "universe", r.replay)
+    extra_C05(ctx)
+
+
+def extra_C05(ctx):
+    pass
+
+
 CHECKS = {
+    "C05": {"level": "model_checking", "run": run_C05, "assumptions": ASSUME_COMMON,
+            "rule": "MC_Safety: every program of 1..MaxLen slots over 27 instruction templates on the verifier's rule boundaries, explored under the control-flow abstraction MachineCF (all inputs, helper sets and budgets: branches, accesses and helper calls go both ways), invariant: accepted => never stuck; soundness of the abstraction checked as a refinement (Machine => MachineCF) on the concrete case families; every program is replayed through the real verifier and, if accepted, run on the real interpreter under a budget; non-trivial = accepted programs"},
+    "C06": {"level": "model_checking", "run": run_C06, "assumptions": ASSUME_COMMON,
+            "rule": "MC_Verdict: 256 opcode bytes x register bytes x 5 positions, every jump/local-call opcode x displacement around program bounds and a wide load (incl. displacements beyond 16 bits), le/be/xadd/call immediates and call kinds, length classes up to 1,000,002 slots with trailing bytes, far targets in long programs; plus the MC_Safety universe; Verifier!Verdict decides; replayed through new() and set_program() of the four VM kinds; distinct by id tuple"},
     "C07": {"level": "model_checking", "run": run_C07, "assumptions": ASSUME_COMMON,
             "rule": "Cases.tla family calls: chains of nested local calls of depth 0..9 in forward and backward layout x 7 frame-size calculators (none, constant 0/16/64/256/512, per-entry table), bounded recursion depth 1..10, far calls; every function checks its callee-saved registers, r10, its own stack slot and the pass-through of r0-r5; Machine.tla (invariants DepthBound, FramePointerOK) gives the outcome incl. depth / stack errors; replayed on interpreter and x86-64 JIT"},
     "C08": {"level": "model_checking", "run": run_C08, "assumptions": ASSUME_COMMON + ["instrumented helpers read rsp with inline asm and compare it with the value seen when the same function is called from Rust"],
@@ -182,6 +278,13 @@ def replay(prop, path):
     rec = json.load(open(path))
     core.build_harness()
     kind = rec.get("kind", "exec")
+    if kind == "verdict":
+        tmp = os.path.join(WORK, "replay_one.ndjson")
+        open(tmp, "w").write(json.dumps(rec["record"]) + "\n")
+        p = rv(["verdicts", "--cases", tmp, "--report", os.path.join(WORK, "replay_one.report.json")], check=False)
+        rep = json.load(open(os.path.join(WORK, "replay_one.report.json")))
+        print(json.dumps(rep["failures"] or rep["samples"], indent=1)[:3000])
+        return 1 if rep["fail"] else 0
     if kind == "exec":
         p = rv(["exec-one", "--case", path], check=False)
         print(p.stdout)
@@ -224,5 +327,13 @@ MANIFEST_TEXT.update({
     "C09": {"technique": "TLA+ InitFor context model; probe programs replayed on 4 VM kinds x 3 engines",
             "text": "Probe programs read r1, the two packet pointers of the fixed metadata buffer, packet loads and the stack limits; the specification's InitFor states what each VM kind must present, with the caller-owned buffers at fixed addresses so pointer values themselves are compared.",
             "note": NOTE_COMMON + " For an empty packet only data_end - data = 0 is required (pointer value free)."},
+})
+MANIFEST_TEXT.update({
+    "C05": {"technique": "TLC over all small programs under a control-flow abstraction of the TLA+ machine (refinement-checked); programs replayed on real verifier + interpreter",
+            "text": "Exhaustive: every program up to the length bound over the template alphabet, every path the abstraction allows (which covers all inputs), invariant accepted => not stuck, with a negative control (the pinned commit's rule fails) and a refinement check tying the abstraction to the full machine. Each program is then loaded and run on the real code, which must return Ok/Err.",
+            "note": NOTE_COMMON + " Programs longer than the bound are covered only by the random accepted-program traces."},
+    "C06": {"technique": "TLA+ WellFormed predicate evaluated by TLC on rule-boundary byte strings; verdicts replayed through every loading entry point",
+            "text": "Each enumerated byte string gets its verdict from the named rules of Verifier.tla (rule independence checked: every rule is the sole reason of some refusal); the real verifier must return the same verdict through new() and set_program() of all four VM kinds, as an error value.",
+            "note": NOTE_COMMON},
 })
 NOT_APPLICABLE = {}
